@@ -526,9 +526,7 @@ pub fn run_scenario(shape: &str, depth: usize, api: &str) -> Outcome {
 /// Block shapes can nest without limit; flow shapes are cut off by the scanner's flow-depth limit
 /// (an error value beyond 255 levels), so a deep tree can only come from block nesting.
 fn shape_class(shape: &str) -> &'static str {
-    if shape.starts_with("keyed-") {
-        "deep-collection-key"
-    } else if shape.starts_with("anchored-") {
+    if shape.starts_with("anchored-") {
         "anchored-block-nesting"
     } else if shape.starts_with("flow-") {
         "flow-nesting"
@@ -614,7 +612,9 @@ pub fn run_c11(tier: &str, _seed: u64, shard: u64, nshards: u64, stats: &mut Sta
             }
             if let Some((d, o)) = first_death {
                 stats.violation(Violation {
-                    sig: format!("C11/abort/phase={}/{}/depth{}", o.last_phase, shape_class(shape), bucket(d)),
+                    // (a deep collection used as a key twice: dying inside the load is its own class;
+                    // clone / eq / hash / drop / emit of that tree are the block-nesting findings)
+                    sig: format!("C11/abort/phase={}/{}/depth{}", o.last_phase, if shape.starts_with("keyed-") && o.last_phase == "load" { "deep-collection-key" } else { shape_class(shape) }, bucket(d)),
                     msg: format!("child process running {api} on shape {shape} at nesting depth {d} ({} bytes of input): {} during phase '{}'", make_input(shape, d).len(), o.status, o.last_phase),
                     case: J::obj(vec![("shape", J::s(shape)), ("depth", J::Int(d as i64)), ("api", J::s(api))]),
                 });
@@ -680,7 +680,7 @@ pub fn replay_c11(case: &J, stats: &mut Stats) {
     eprintln!("replay C11: {shape} depth {depth} api {api}: {} (last phase {}, result {})", o.status, o.last_phase, o.result);
     if o.died {
         stats.violation(Violation {
-            sig: format!("C11/abort/phase={}/{}/depth{}", o.last_phase, shape_class(&shape), bucket(depth)),
+            sig: format!("C11/abort/phase={}/{}/depth{}", o.last_phase, if shape.starts_with("keyed-") && o.last_phase == "load" { "deep-collection-key" } else { shape_class(&shape) }, bucket(depth)),
             msg: format!("{}", o.status),
             case: case.clone(),
         });
